@@ -39,7 +39,7 @@ func depth(tier string) int {
 		}
 	}
 	if tier == "thorough" {
-		return 12
+		return 13
 	}
 	return 9
 }
@@ -54,6 +54,15 @@ func runUnit(r *mc.Report, base *mc.Ctx, u mc.Unit) {
 	cfg := u.Params.(senderkit.Cfg)
 	w := senderkit.NewWorld(cfg.Hist, worldDir(u))
 	defer w.Close()
+	// determinism self-check: one fixed history twice on fresh objects, same key and same observation
+	probe := []string{"L2Block", "EpochTick", "InError", "L2Block", "EpochTick", "Settle", "StatusTick"}
+	c1, c2 := &mc.Ctx{UnitName: u.Name}, &mc.Ctx{UnitName: u.Name}
+	k1, _ := senderkit.Run(c1, cfg, opts, w, probe)
+	k2, _ := senderkit.Run(c2, cfg, opts, w, probe)
+	if k1 != k2 || c1.Digest() != c2.Digest() {
+		r.Errorf("unit %s: nondeterministic execution of %v", u.Name, probe)
+		return
+	}
 	mc.BFS(r, base, mc.BFSModel{MaxDepth: depth(base.Tier), Build: func(c *mc.Ctx, history []string) (string, []string) {
 		return senderkit.Run(c, cfg, opts, w, history)
 	}})
@@ -69,6 +78,7 @@ func replay(c *mc.Ctx, u mc.Unit, v mc.Violation) {
 }
 
 func main() {
+	senderkit.SetDeadlineFromArgs(os.Args)
 	mc.Main(mc.Spec{
 		ID: "C02", Level: "model_checking",
 		Units:   units,
